@@ -291,7 +291,16 @@ func (x *gen) usesNode(ref string, gr *sg.Grouping, feats []string, allMods []*s
 				}
 			}
 			if ok {
-				a.Kids = append(a.Kids, &sg.Node{Kind: "uses", Name: v.ref})
+				inner := &sg.Node{Kind: "uses", Name: v.ref}
+				switch g.Pick(4, "augusesdepth") {
+				case 0:
+					// ... not directly in the augment but inside a node that the augment adds
+					inner = &sg.Node{Kind: "container", Name: x.id("uac"), Kids: []*sg.Node{inner}}
+				case 1:
+					inner = &sg.Node{Kind: "list", Name: x.id("ual"), Key: "k", Kids: []*sg.Node{{Kind: "leaf", Name: "k", Type: &sg.TypeSpec{Name: "string"}},
+						{Kind: "container", Name: x.id("uac"), Kids: []*sg.Node{inner}}}}
+				}
+				a.Kids = append(a.Kids, inner)
 			}
 		}
 		if len(a.Kids) == 1 && g.Chance(1, 3, "augwhen") {
